@@ -8,6 +8,8 @@ import (
 	"bytes"
 	"encoding/json"
 	"fmt"
+	gogoproto "github.com/gogo/protobuf/proto"
+	golangproto "github.com/golang/protobuf/proto"
 	"os"
 	"runtime"
 	"runtime/pprof"
@@ -228,6 +230,42 @@ func (w *W) checkC05(t *gcore.Type, id string, c *dynamicpb.Message) {
 	}
 	if len(b) > 0 {
 		w.nontr++
+	}
+	// the same value again, but the owning RUNTIME measured it first (applications mix proto.Size / proto.Marshal with
+	// the fast-marshal methods; both write the message's size-cache field): the generated bytes must be the same
+	x2, perr := build(t, c)
+	if perr != "" {
+		return
+	}
+	var b2 []byte
+	var err2 error
+	p := guard(func() {
+		switch t.RT {
+		case corpus.Gogo:
+			_ = gogoproto.Size(x2.(gogoproto.Message))
+		case corpus.Legacy:
+			_ = golangproto.Size(x2.(golangproto.Message))
+		default:
+			_ = proto.Size(x2.(proto.Message))
+		}
+		b2, err2 = x2.(marshaler).Marshal()
+	})
+	w.evals++
+	bad := ""
+	switch {
+	case p != "" || err2 != nil:
+		bad = fmt.Sprintf("panic=%q err=%v", p, err2)
+	case len(b2) != len(b):
+		bad = fmt.Sprintf("%d bytes instead of %d", len(b2), len(b))
+	default: // the byte order of map entries may differ between two calls: compare what the reference reads
+		if d2, derr := refDecode(t, b2); derr != nil {
+			bad = "reference rejects the bytes: " + derr.Error()
+		} else if df := gcore.Diff(c, d2); df != "" {
+			bad = df
+		}
+	}
+	if bad != "" {
+		w.fail(t, "C05/output-differs-after-the-runtime-sized-the-message", id, bad, map[string]any{"bytes": hexs(b), "bytes_after_runtime_Size": hexs(b2)})
 	}
 }
 
